@@ -16,6 +16,8 @@ Static clauses:
             normalisation are otherwise accepted silently)
 Not decided: JSON-schema content of the parameter types.
 """
+import re
+
 from .. import mir
 from ..common import CallGraph, call_matches, is_derive, site_in_derive, with_closures
 from ..engine import Result, ok, finding, assumption, where
@@ -149,7 +151,22 @@ def f_norm(F, res):
     from ..common import with_helpers
     g = with_helpers(F, "tx3_resolver::trp::parse_resolve_request")
     du = mir.DefUse(g)
-    gets = [(bi, t) for bi, t in mir.calls(g) if (t.get("callee") or "").endswith("BTreeMap::<K, V, A>::get")]
+    LOOKUPS = ("get", "get_key_value", "contains_key", "remove", "remove_entry", "get_mut", "entry")
+    gets = [(bi, t) for bi, t in mir.calls(g) if re.search(r"(BTreeMap|HashMap)::<K, V(, [A-Z])*>::(%s)$" % "|".join(LOOKUPS), t.get("callee") or "")]
+    # the table of declared parameters is read, never consumed, while the request is matched against it: an entry that is
+    # removed when first bound makes the outcome depend on the order in which env and args are walked (the explicit argument
+    # loses against the environment entry of the same key)
+    keyr = "tx3_resolver::trp::parse_resolve_request|the declared-parameter table is only read"
+    muts = []
+    for bi, t in mir.calls(g):
+        m = re.search(r"(BTreeMap|HashMap)::<K, V(, [A-Z])*>::(remove|remove_entry|retain|clear|pop_first|pop_last|insert|drain|split_off|extract_if)$", t.get("callee") or "")
+        if m and t["args"]:
+            if any(o.kind == "call" and o.callee.endswith("find_params") for o in mir.provenance(g, du, t["args"][0], transparent_extra=("std::ops::DerefMut::deref_mut", "std::ops::Deref::deref"))):
+                muts.append((t["line"], m.group(3)))
+    if muts:
+        res.add([finding("F-NORM", keyr, where(g, muts[0][0]), "parse_resolve_request `%s`s entries of the table find_params returned while it matches the request against it: a key supplied twice (environment and explicit argument) is bound to whichever comes first, the other is silently dropped" % muts[0][1])])
+    else:
+        res.add([ok("F-NORM", keyr, where(g), "find_params(..) is only looked up")])
     key = "tx3_resolver::trp::parse_resolve_request|lookup is verbatim"
     low = any("to_lowercase" in (t.get("callee") or "") for _, t in mir.calls(g))
     if gets and not low:
